@@ -279,7 +279,15 @@ func runJob(w *hx.Worker, j job, maxLen int, only string) {
 	if elided == nil {
 		names = nil
 	}
-	for _, in := range lexfam.Inputs(j.k.alphabet, maxLen) {
+	ins := lexfam.Inputs(j.k.alphabet, maxLen)
+	// a few longer inputs that contain several token types at once (identifier, string, number, comment)
+	ins = append(ins, `a "b" c`, `"x" y`, `a "b`, `b 1 "c" a`, "a \"b\"\n c", `c "c" c`)
+	if j.k.name == "text/scanner" {
+		ins = append(ins, "a /* x */ \"b\"", "a // x\n b")
+	} else {
+		ins = append(ins, "a # x\n \"b\"", "a ; b # c")
+	}
+	for _, in := range ins {
 		for _, fn := range []string{"", "f"} {
 			for _, at := range []bool{false, true} {
 				key := fmt.Sprintf("%s :: in=%q file=%q trailing=%v", desc, in, fn, at)
